@@ -83,8 +83,10 @@ class AabbTree:
         # Insert order
         insert_order = np.array(range(old_filled_len, self.filled_len))
         if pre_insertion_methode == "sort":
-            insert_order = _sort_aabbs(
-                aabbs[old_filled_len : len(self.nodes) - self.filled_len]
+            # Sort the new batch; leaf indices of the batch start at the old
+            # fill level of the tree.
+            insert_order = old_filled_len + _sort_aabbs(
+                np.asarray(aabbs, dtype=float)
             )
         elif pre_insertion_methode == "shuffle":
             np.random.shuffle(insert_order)
@@ -142,6 +144,11 @@ class AabbTree:
         overlap_pairs : array, shape (n, 2)
             An array of all overlapping pairs.
         """
+        if self.root == INDEX_NONE or other.root == INDEX_NONE:
+            # An empty tree does not overlap with anything.
+            empty = np.empty(0, dtype=int)
+            return False, empty, empty.copy(), []
+
         (
             overlap_tetrahedron1,
             overlap_tetrahedron2,
@@ -176,6 +183,10 @@ class AabbTree:
             IMPORTANT: These indices may differ from order the aabbs where added to the tree.
             Use these indices to index the external data and insert index lists.
         """
+        if self.root == INDEX_NONE:
+            # An empty tree does not overlap with anything.
+            return False, np.empty(0, dtype=int)
+
         overlaps = query_overlap(aabb, self.root, self.nodes, self.aabbs)
 
         return len(overlaps) > 0, overlaps
